@@ -414,7 +414,7 @@ def run(ck, dialect, prop_module, glsl_ub_excluded=False):
                   "Go harness: generator, cparse (independent parser of the emitted text), probes"]
     if not ck.build_harness():
         return
-    proved = regenerate_and_prove(ck, [prop_module] + (["Naga.Props.CFlow"] if dialect == "msl" else ["Naga.Props.CFlowF"]) + ["Naga.Props.Bake", "Naga.Props.Pack4"]
+    proved = regenerate_and_prove(ck, [prop_module] + (["Naga.Props.CFlow"] if dialect == "msl" else ["Naga.Props.CFlowF"]) + ["Naga.Props.Bake", "Naga.Props.Pack4", "Naga.Props.BitField"]
                                   + (["Naga.Props.GlslFold"] if dialect == "glsl" else []))
     if not ck.driver():
         return
